@@ -144,14 +144,6 @@ class Explorer:
             return True
         if z3.is_false(cond):
             return False
-        # syntactically already decided on this path (same simplified term, or its negation)
-        k = self.known.get(cond.get_id())
-        if k is None and z3.is_not(cond):
-            k = self.known.get(cond.arg(0).get_id())
-            if k is not None:
-                k = not k
-        if k is not None:
-            return k
         if self.pos < len(self.decisions):
             d = self.decisions[self.pos]
             if d[0] != 'b':
@@ -160,6 +152,18 @@ class Explorer:
             self._note_decision()
             self.add(cond if d[1] else z3.Not(cond))
             return d[1]
+        # syntactically already decided on this path (same simplified term, or its negation): no solver call, but the
+        # decision is still recorded - whether this cache hits depends on z3's term ordering and must not shift the vector
+        k = self.known.get(cond.get_id())
+        if k is None and z3.is_not(cond):
+            k = self.known.get(cond.arg(0).get_id())
+            if k is not None:
+                k = not k
+        if k is not None:
+            self.decisions = self.decisions[:self.pos] + [('b', k)]
+            self.pos += 1
+            self._note_decision()
+            return k
         mv = self.model_eval_bool(cond)
         ncond = z3.Not(cond)
         if mv is True:
